@@ -237,6 +237,87 @@ pub fn run(ctx: &mut Ctx) {
     }
     ctx.sample(json!({"program": progs[2].0, "text": progs[2].1, "encodings": ENCODINGS}));
 
+    // ---- (1b) two files in one invocation, each in every encoding, both argument orders: the
+    // diagnostics of a file must be what a single-file run of the same decoded text reports
+    // (the decoding of one file must not depend on what was read before it)
+    let companion = "(* Z\u{e4}hler \u{20ac} *)\nFUNCTION_BLOCK Companion\nVAR\n  t : STRING := '\u{fc}\u{df}';\n  n : INT;\nEND_VAR\n  n := 1; (* \u{e9} *)\nEND_FUNCTION_BLOCK\n";
+    let subject = &progs.iter().find(|p| p.0 == "semantic-fault-same-line-after-comment").unwrap().1;
+    let single = {
+        let dir = scratch.sub("pair-single");
+        let tmp = scratch.sub("pair-single-t");
+        let path = dir.join("subject.st");
+        std::fs::write(&path, encode(subject, "utf8")).unwrap();
+        outcome(&cli::run(&["check", path.to_str().unwrap()], &tmp, Duration::from_secs(30)))
+    };
+    let mut pair_jobs = vec![];
+    for e1 in ENCODINGS {
+        for e2 in ENCODINGS {
+            for subject_first in [true, false] {
+                pair_jobs.push((e1, e2, subject_first));
+            }
+        }
+    }
+    let pair_results: Vec<(&str, &str, bool, cli::CliRun)> = pair_jobs
+        .par_iter()
+        .enumerate()
+        .map(|(n, (e1, e2, subject_first))| {
+            let dir = scratch.sub(&format!("pair{}", n));
+            let tmp = scratch.sub(&format!("pairt{}", n));
+            let a = dir.join("companion.st");
+            let b = dir.join("subject.st");
+            std::fs::write(&a, encode(companion, e1)).unwrap();
+            std::fs::write(&b, encode(subject, e2)).unwrap();
+            let args: Vec<&str> = if *subject_first { vec!["check", b.to_str().unwrap(), a.to_str().unwrap()] } else { vec!["check", a.to_str().unwrap(), b.to_str().unwrap()] };
+            (*e1, *e2, *subject_first, cli::run(&args, &tmp, Duration::from_secs(30)))
+        })
+        .collect();
+    for (e1, e2, subject_first, run) in &pair_results {
+        ctx.evaluations += 1;
+        ctx.transitions += 1;
+        ctx.traces += 1;
+        ctx.distinct(&format!("pair|{}|{}|{}", e1, e2, subject_first));
+        let mut diags: Vec<(String, u64, u64)> = run
+            .diags
+            .iter()
+            .filter_map(|d| d.at.as_ref().filter(|a| a.0.ends_with("/subject.st")).map(|a| (d.code.clone(), a.1, a.2)))
+            .collect();
+        diags.sort();
+        if run.crashed() || diags != single.diags {
+            ctx.fail(
+                &format!("two-files/companion={}/subject={}/{}", e1, e2, if *subject_first { "subject-first" } else { "companion-first" }),
+                &format!("`check` of two files (companion in {}, subject in {}, {}): the subject's diagnostics are {:?}, alone they are {:?}", e1, e2, if *subject_first { "subject first" } else { "companion first" }, diags, single.diags),
+                json!({"mode":"pair","companion_encoding":e1,"subject_encoding":e2,"subject_first":subject_first}),
+            );
+        }
+    }
+    // the same in-process: one project loading both files (state kept between files of one process)
+    for e1 in ENCODINGS {
+        for e2 in ENCODINGS {
+            for subject_first in [true, false] {
+                let dir = scratch.sub(&format!("ipair-{}-{}-{}", e1, e2, subject_first));
+                let a = dir.join("companion.st");
+                let b = dir.join("subject.st");
+                std::fs::write(&a, encode(companion, e1)).unwrap();
+                std::fs::write(&b, encode(subject, e2)).unwrap();
+                let mut p = FileBackedProject::new();
+                let order: Vec<&std::path::PathBuf> = if subject_first { vec![&b, &a] } else { vec![&a, &b] };
+                for f in order {
+                    let _ = p.push(FileId::from_path(f));
+                }
+                let got = p.get(&FileId::from_path(&b)).map(|s| s.as_string().to_string());
+                ctx.evaluations += 1;
+                ctx.transitions += 1;
+                if got.as_deref() != Some(subject.as_str()) {
+                    ctx.fail(
+                        &format!("decoded-text-depends-on-other-files/companion={}/subject={}", e1, e2),
+                        &format!("loading the subject in {} {} a companion in {} decodes it to different text than the program", e2, if subject_first { "before" } else { "after" }, e1),
+                        json!({"mode":"pair","companion_encoding":e1,"subject_encoding":e2,"subject_first":subject_first}),
+                    );
+                }
+            }
+        }
+    }
+
     // ---- (2) every byte value in four contexts
     let mut byte_jobs = vec![];
     for b in 0u16..=255 {
